@@ -24,6 +24,7 @@ inductive Err
   | overflowError   -- math.ceil(inf): magnitude beyond binary64 with return_int
   | keyError        -- prefix admitted by the regex but absent from UNIT_PREFIX_EXPONENT (finding D5)
   | typeError       -- pow(None, e): a non-mixed system without a base
+  | bytesWarning    -- python -bb: `"%s" % (unit_system,)` on a bytes value while building the message
   deriving DecidableEq, Repr
 
 inductive Outcome
@@ -211,6 +212,12 @@ def stringToBytesArg (a : SysArg) (text : List Char) (returnInt : Bool) : Except
     match defaultUnitSystem with
     | some s => stringToBytes s text returnInt
     | none => .error .valueError
+
+/-- `unit_system` is a bytes (or bytearray) value: unknown like any other non-str value, but the message
+    `_('Invalid unit system: "%s"') % (unit_system,)` (line 236) calls `str()` on it, which raises
+    BytesWarning when the interpreter runs with `-bb` — an implicit input of the call, passed in here. -/
+def stringToBytesBytesSys (bytesWarningIsError : Bool) : Except Err Outcome :=
+  if bytesWarningIsError then .error .bytesWarning else .error .valueError
 
 /-- The `return_int` argument as a caller can pass it: left out, or any object — of which only the
     truth value matters (`if return_int:`, line 263): `1`, `'yes'`, `(0,)`, a truthy object count as
